@@ -24,7 +24,7 @@ THEOREMS = ["Mesa.Steps." + t for t in (
     "C05_most_derived_override_runs_first", "C05_next_body_only_through_super", "C05_not_overridden_only_counter",
     "C05_arguments_unchanged", "C05_run_model_exact", "C05_run_model_terminates", "C05_instances_independent",
     "C05_all_interleavings_count")]
-COUNTS = {"quick": 600, "thorough": 20000}
+COUNTS = {"quick": 600, "thorough": 80000}
 EXHAUSTIVE = {"quick": True, "thorough": True}
 TRUSTED = [
     "Python attribute lookup: an instance attribute (`self.step = self._wrapped_step`) shadows the class attribute; `super().step` resolves along the class MRO and never to the instance attribute",
